@@ -261,6 +261,15 @@ def onPerturb (s : St) (rest : String) : St := Id.run do
     s := s.report "model" "C05" "perturbation-keys" s!"impl=[{rest}] model=[{n} {ch} {hex64 a}]"
   return { s with stats := { s.stats with perturbed := s.stats.perturbed + 1, perturbations := s.stats.perturbations + total } }
 
+/-- `H` line: the keys (among those seen in this game) that `position_reached` reports — public API only.
+    Expected: exactly the keys of the earlier positions on the current path. -/
+def onReached (s : St) (rest : String) : St :=
+  let impl := sortNat ((if rest.isEmpty then [] else rest.splitOn ",").map parseHex)
+  let expected := (rle (sortNat (s.stack.map (·.key)))).map (·.1)
+  if impl != expected then
+    s.report "spec" "C02,C03" "position-reached" s!"reached=[{",".intercalate (impl.map hex)}] earlier-positions-on-path=[{",".intercalate (expected.map hex)}]"
+  else s
+
 def onAfter (s : St) (rest : String) : St :=
   if rest == "same" then s
   else s.report "spec" "C02" "legal-move-query-changed-the-position" s!"before=[{s.lastD}] after=[{rest}]"
@@ -281,6 +290,7 @@ def step (s : St) (line : String) : St :=
   | "M" => onMove s rest
   | "U" => onUnmake s
   | "P" => onPerturb s rest
+  | "H" => onReached s rest
   | _ => s
 
 def jsonStr (s : String) : String :=
